@@ -704,10 +704,7 @@ class Gen:
             if prev in ("/", ":") or it in ("/", ":"):
                 out += "{,}" + it
             elif re.fullmatch(r"[-+]?\d+[pP]", prev) and re.match(r"\d*(?:[fFdDgG]|[eE][nNsS]?)\d", it):
-                if prev[0] in "+-" and self.avoid("no_signed_kP_without_comma"):
-                    out += ", " + it
-                else:
-                    out += "{,}" + it
+                out += "{,}" + it
             else:
                 out += ", " + it
         return out
